@@ -50,7 +50,7 @@ Definition corr_ok (c : c10case) : bool :=
   | CPipe resps conns =>
       list_eqb Z.eqb (pipeline_conn_ids 1 (map (fun r => resp_conn_flag (negb (fst r)) false (snd r)) resps)) conns
   | CRespSet ops written flag =>
-      let h := h_rh (fold_left apply_hop ops (hstate0 200%Z)) in
+      let h := h_rh (fold_left apply_hop ops (hstate0 200%Z false)) in
       list_eqb beq (rhdr_written h) written && Bool.eqb (rh_close h) flag
   end.
 
